@@ -108,10 +108,10 @@ def run(pid, tier, seed):
         if not j["ok"] and os.path.exists(fp):
             rp = os.path.join(vc.REPLAYS, PID)
             os.makedirs(rp, exist_ok=True)
-            with open(fp) as fh:
-                body = fh.read()
+            with open(fp, "rb") as fh:
+                body = fh.read()          # keys may contain any byte
             import hashlib
-            path = os.path.join(rp, hashlib.sha256(body.encode()).hexdigest()[:12] + ".txt")
+            path = os.path.join(rp, hashlib.sha256(body).hexdigest()[:12] + ".txt")
             shutil.copy(fp, path)
             msg = confirm(binary, path, 3)
             if msg:
